@@ -64,7 +64,7 @@ MORE_GRAPHS = {
 BIG = {
     "C14": ("0-2 speculative x 2 retries x all answer kinds x 2 pages x a failing pool",
             _c(OkKinds={"rows", "void", "more"}, ErrKinds={"Unavailable", "ConnectionShutdown"},
-               FatalKinds={"SyntaxException"}, CLs={99, 0}, MaxRetries=2, MaxEpoch=2, PoolConds={"failing"}, MaxBad=1)),
+               FatalKinds={"SyntaxException"}, MaxRetries=2, MaxEpoch=2, PoolConds={"failing"}, MaxBad=1)),
     "C15": ("two pages x every pool condition on up to 2 hosts x 2 retries",
             _c(OkKinds={"rows", "more", "void"}, ErrKinds={"Unavailable", "ConnectionShutdown"}, MaxRetries=2, MaxEpoch=2,
                PoolConds={"missing", "busy", "failing", "shutdown"}, MaxBad=2, IdChoices={"default", "one"})),
